@@ -77,7 +77,7 @@ def m_bt_first(it, argv, text):
     if not mv.items:
         return NONE
     kv = mv.items[0]
-    return S.some(kv.f[0] if mv.is_set else TupleV((kv.f[0], kv.f[1])))
+    return some(kv.f[0] if mv.is_set else TupleV((kv.f[0], kv.f[1])))
 
 
 @model('BTreeMap::pop_first', 'BTreeSet::pop_first')
@@ -87,7 +87,7 @@ def m_bt_pop_first(it, argv, text):
         return NONE
     it.store(argv[0].addr, MapV(mv.items[1:], mv.is_set))
     kv = mv.items[0]
-    return S.some(kv.f[0] if mv.is_set else kv)
+    return some(kv.f[0] if mv.is_set else kv)
 
 
 # ----------------------------------------------------------------------------- VecDeque
@@ -115,7 +115,7 @@ def m_vd_pop_front(it, argv, text):
     if not v.e:
         return NONE
     it.store(argv[0].addr, VecV(v.e[1:]))
-    return S.some(v.e[0])
+    return some(v.e[0])
 
 
 @model('VecDeque::pop_back')
@@ -380,7 +380,7 @@ def m_peek(it, argv, text):
     items, pos = iv.data
     if pos >= len(items):
         return NONE
-    return S.some(RefV(it.alloc(items[pos])))
+    return some(RefV(it.alloc(items[pos])))
 
 
 @model('Peekable::next_if')
@@ -389,7 +389,7 @@ def m_next_if(it, argv, text):
     items, pos = iv.data
     if pos < len(items) and truth(it, it.call_value(argv[1], [RefV(it.alloc(items[pos]))])):
         it.store(argv[0].addr, IterV('list', (items, pos + 1)))
-        return S.some(items[pos])
+        return some(items[pos])
     return NONE
 
 
@@ -481,7 +481,7 @@ def m_pool_new(it, argv, text):
     n = argv[-1]
     if n == 0:
         raise RustPanic("ThreadPool::new: assertion failed: num_threads >= 1")
-    return OpaqueV('ThreadPool', S.some(n))
+    return OpaqueV('ThreadPool', some(n))
 
 
 @model('available_parallelism')
@@ -506,3 +506,90 @@ def m_range_incl_new(it, argv, text):
 def m_range_incl_get(it, argv, text):
     r = it.deref_all(argv[0])
     return RefV(it.alloc(r.f[0] if text.split('::<')[0].endswith('start') else r.f[1]))
+
+
+# ----------------------------------------------------------------------------- round-3 additions
+
+def _int_key(it, k, what):
+    k = it.deref_all(k)
+    if isinstance(k, TupleV) and all(isinstance(it.deref_all(x), int) for x in k.f):
+        return tuple(it.deref_all(x) for x in k.f)
+    if not isinstance(k, int):
+        raise Unsupported("%s with non-integer key %r" % (what, k))
+    return k
+
+
+@model('Iterator::min_by_key', 'Iterator::max_by_key')
+def m_min_by_key(it, argv, text):
+    """min_by_key returns the FIRST minimal element, max_by_key the LAST maximal one (documented)"""
+    xs = drain(it, argv[0])
+    if not xs:
+        return NONE
+    keys = [_int_key(it, it.call_value(argv[1], [RefV(it.alloc(x))]), 'min_by_key') for x in xs]
+    best = 0
+    if 'max_by_key' in text:
+        for i in range(1, len(xs)):
+            if keys[i] >= keys[best]:
+                best = i
+    else:
+        for i in range(1, len(xs)):
+            if keys[i] < keys[best]:
+                best = i
+    return some(xs[best])
+
+
+@model('Iterator::min_by', 'Iterator::max_by')
+def m_min_by(it, argv, text):
+    xs = drain(it, argv[0])
+    if not xs:
+        return NONE
+    best = xs[0]
+    for x in xs[1:]:
+        r = it.call_value(argv[1], [RefV(it.alloc(best)), RefV(it.alloc(x))])
+        if 'max_by' in text:
+            if r.vname != 'Greater':      # last maximal element wins
+                best = x
+        else:
+            if r.vname == 'Greater':      # first minimal element wins
+                best = x
+    return some(best)
+
+
+@model('String::replace_range')
+def m_replace_range(it, argv, text):
+    r = argv[0]
+    s = it.load(r.addr).b
+    rg = it.deref_all(argv[1])
+    if not isinstance(rg, StructV):
+        raise Unsupported("replace_range with %r" % (rg,))
+    n = len(s)
+    if rg.name == 'Range':
+        a, b = rg.f
+    elif rg.name == 'RangeInclusive':
+        a, b = rg.f[0], rg.f[1] + 1
+    elif rg.name == 'RangeFrom':
+        a, b = rg.f[0], n
+    elif rg.name == 'RangeTo':
+        a, b = 0, rg.f[0]
+    elif rg.name == 'RangeFull':
+        a, b = 0, n
+    else:
+        raise Unsupported("replace_range with %s" % rg.name)
+    if not (isinstance(a, int) and isinstance(b, int)):
+        raise Unsupported("replace_range with symbolic bounds")
+    if a > b or b > n:
+        raise RustPanic("replace_range: range %d..%d out of bounds of a string of length %d" % (a, b, n))
+    if not S.is_boundary(s, a) or not S.is_boundary(s, b):
+        raise RustPanic("replace_range: not a char boundary")
+    it.store(r.addr, StrV(s[:a] + it.as_str(argv[2]).b + s[b:]))
+    return UNIT
+
+
+@model('MAIN_SEPARATOR')
+def m_main_separator(it, argv, text):
+    return 47
+
+
+@model('MAIN_SEPARATOR_STR')
+def m_main_separator_str(it, argv, text):
+    return StrV((47,))
